@@ -225,6 +225,66 @@ theorem locate_year (c : Cal) (src tgt D h : Int) (hc : c.OkAt D) (hs : itype sr
     · unfold oneHour; omega
   simp only [locate, hs, ht, calcFamilyStartTime, calcSegmentTime, calcFamily, hd, dayNo_mul, hc.inYear]
 
+/-- `place_year` in terms of natural numbers: base slot, ratio and slot of a source timestamp -/
+theorem place_year_nat (tF : Int) (o s src tgt F : Nat) (g : Guard src tgt F)
+    (hty : itype (tgt : Int) = .year) (ho : F ∣ o) (hs : s * src < F)
+    (hb : (o + s * src) / tgt < 65536) :
+    let r : R := ⟨src, tgt, tF + o, tF⟩
+    r.baseSlot = ((o / tgt : Nat) : Int) ∧ r.intervalRatio = ((tgt / src : Nat) : Int) ∧
+    r.calcSlot (r.getTimestamp s) = (((o + s * src) / tgt : Nat) : Int) ∧
+    o / tgt + s / (tgt / src) = (o + s * src) / tgt := by
+  have htgt : 0 < tgt := by
+    have := (itype_year_iff tgt).1 hty; omega
+  have hcore := core_div o s src tgt F g.src_pos htgt g.dvd g.fam ho hs
+  have hb0 : o / tgt < 65536 := by
+    have : o / tgt ≤ (o + s * src) / tgt := Nat.div_le_div_right (Nat.le_add_right _ _)
+    omega
+  intro r
+  have e2 : r.sourceFTime - tF = ((o : Nat) : Int) := by simp only [r]; ring
+  refine ⟨?_, ?_, calcSlot_year_eq tF o s src tgt hty hb, hcore.symm⟩
+  · rw [R.baseSlot, R.calcSlot, show itype r.target = .year from hty]
+    show u16 (Int.tdiv (r.sourceFTime - tF) (tgt : Int)) = _
+    rw [e2, tdiv_cast, u16_of_lt _ hb0]
+  · simp only [R.intervalRatio, r]
+    rw [tdiv_cast, u16_of_lt _ g.ratio]
+
+/-- `place_month` in terms of natural numbers -/
+theorem place_month_nat (tF : Int) (o s src tgt F : Nat) (g : Guard src tgt F)
+    (hty : itype (tgt : Int) = .month) (ho : F ∣ o) (hs : s * src < F)
+    (hday : o + s * src < 86400000) :
+    let r : R := ⟨src, tgt, tF + o, tF⟩
+    r.baseSlot = ((o / tgt : Nat) : Int) ∧ r.intervalRatio = ((tgt / src : Nat) : Int) ∧
+    r.calcSlot (r.getTimestamp s) = (((o + s * src) / tgt : Nat) : Int) ∧
+    o / tgt + s / (tgt / src) = (o + s * src) / tgt := by
+  have hm := (itype_month_iff tgt).1 hty
+  have htgt : 0 < tgt := by omega
+  have htgt' : 300000 ≤ tgt := by omega
+  have hcore := core_div o s src tgt F g.src_pos htgt g.dvd g.fam ho hs
+  have hb0 : o / tgt < 65536 := by
+    have h1 : o / tgt ≤ o / 300000 := Nat.div_le_div_left htgt' (by norm_num)
+    omega
+  intro r
+  have e2 : r.sourceFTime - tF = ((o : Nat) : Int) := by simp only [r]; ring
+  have hd : oneDay = ((86400000 : Nat) : Int) := rfl
+  refine ⟨?_, ?_, calcSlot_month_eq tF o s src tgt hty hday, hcore.symm⟩
+  · rw [R.baseSlot, R.calcSlot, show itype r.target = .month from hty]
+    show u16 (Int.tdiv (Int.tmod (r.sourceFTime - tF) oneDay) (tgt : Int)) = _
+    rw [e2, hd, tmod_cast, Nat.mod_eq_of_lt (by omega), tdiv_cast, u16_of_lt _ hb0]
+  · simp only [R.intervalRatio, r]
+    rw [tdiv_cast, u16_of_lt _ g.ratio]
+
+/-- month-type source (family = day `f` of the month starting at day number `M`), year-type target:
+the target family is the month -/
+theorem locate_month_to_year (c : Cal) (src tgt M f : Int) (hc : c.OkAt (M + (f - 1)))
+    (hM : c.monthStart (M + (f - 1)) = M) (hs : itype src = .month) (ht : itype tgt = .year) :
+    locate c src tgt (M * oneDay) f =
+      { srcFamStart := (M + (f - 1)) * oneDay, tSegTime := c.yearStart (M + (f - 1)) * oneDay,
+        tFamily := c.monthNo (M + (f - 1)), tFamStart := M * oneDay } := by
+  have hMM : c.monthStart M = M := by
+    have := hc.idem; rw [hM] at this; exact this
+  simp only [locate, hs, ht, calcFamilyStartTime, calcSegmentTime, calcFamily, dayNo_mul, hMM, hc.inYear, hM]
+
+
 /-- the facts about a day-type source family and a month-type target shared by the two placements -/
 theorem month_setup (c : Cal) (D h src tgt : Nat) (hc : c.OkAt D) (hh : h < 24)
     (hst : itype (src : Int) = .day) (htt : itype (tgt : Int) = .month) (sEnd : Nat) (hend : sEnd * src < 3600000) :
